@@ -98,9 +98,10 @@ class Multiplication:
     processed_circulars = set()
     for l in segment.dovetails + segment.containments:
       if l.is_circular():
-        if l not in processed_circulars:
+        # (by identity: containments and unnamed edges are not hashable)
+        if id(l) not in processed_circulars:
           self.__divide_counts(l, factor)
-          processed_circulars.add(l)
+          processed_circulars.add(id(l))
       else:
         self.__divide_counts(l, factor)
 
